@@ -159,7 +159,7 @@ func TestC16SimOT(t *testing.T) {
 	for _, sg := range simotGroups {
 		sg := sg
 		t.Run(sg.name, func(t *testing.T) {
-			vlib.Check(t, vlib.N(sg.quick, 5*sg.quick), func(t *rapid.T) { simotCase(t, sg.name, sg.g) })
+			vlib.Check(t, vlib.N(sg.quick, 4*sg.quick), func(t *rapid.T) { simotCase(t, sg.name, sg.g) })
 		})
 	}
 }
